@@ -239,6 +239,35 @@ pub fn read_adaptor_route(c: &Conc, shp: &[u8], shx: Option<&[u8]>, t: i32, gene
     }
 }
 
+/// sequential reading on a reader that has been used before: after a random access refused for its type
+/// (`refused`), or after a walk by random access that ran past the end; the iteration still yields every shape
+pub fn read_used_route(c: &Conc, shp: &[u8], shx: &[u8], t: i32, refused: bool) -> Value {
+    let r = guarded(|| -> Result<Vec<Shape>, Error> {
+        let mut rd = ShapeReader::with_shx(Cursor::new(shp.to_vec()), Cursor::new(shx.to_vec()))?;
+        if refused {
+            // a concrete type that is not the file's
+            let wrong = ALL_TYPES[(ALL_TYPES.iter().position(|x| *x == t).unwrap_or(0) + 5) % 13];
+            let _ = for_type!(wrong, S, { rd.read_nth_shape_as::<S>(0).map(|x| x.is_ok()) });
+        } else {
+            let mut i = 0;
+            while let Some(x) = rd.read_nth_shape(i) {
+                x?;
+                i += 1;
+            }
+        }
+        let mut items = vec![];
+        for x in rd.iter_shapes() {
+            items.push(x?);
+        }
+        Ok(items)
+    });
+    match r {
+        Ok(Ok(items)) => res_json(c, &items, None, None),
+        Ok(Err(e)) => res_json(c, &[], Some(err_json(&e)), None),
+        Err(p) => json!({"items": [], "openErr": "", "err": "panic", "code": 0, "msg": p, "nonePastEnd": true}),
+    }
+}
+
 pub fn read_cursor_route(c: &Conc, shp: &[u8], shx: Option<&[u8]>, t: i32, generic: bool, random: bool, n: usize) -> Value {
     let opened = guarded(|| match shx {
         Some(x) => ShapeReader::with_shx(Cursor::new(shp.to_vec()), Cursor::new(x.to_vec())),
@@ -434,6 +463,13 @@ fn sizes_event(shapes: &[Shape], shp: &[u8]) -> Value {
 }
 
 /// emit all events of one case
+struct PendingGuard;
+impl Drop for PendingGuard {
+    fn drop(&mut self) {
+        pending_done();
+    }
+}
+
 thread_local! {
     /// light cases (the size-threshold sweep): one write, one sequential and one random-access read
     static LIGHT: std::cell::Cell<bool> = std::cell::Cell::new(false);
@@ -485,6 +521,9 @@ fn threshold_shapes(r: &mut Rng, t: i32, thresholds: &[usize], per: usize) -> Ve
 
 pub fn run_case(tr: &mut Trace, c: &Conc, prop: &str, t: i32, ashapes: &[AShape], tmp: &Path, id: usize) {
     let light = LIGHT.with(|l| l.get());
+    pending(&json!({"call": "codec case: construct, write, read", "t": t, "id": id,
+                    "shapes": ashapes.iter().take(3).map(|a| a.to_json()).collect::<Vec<_>>()}));
+    let _done = PendingGuard;
     let built = guarded(|| ashapes.iter().map(|a| build(c, a)).collect::<Vec<Shape>>());
     let shapes = match built {
         Ok(s) => s,
@@ -563,6 +602,13 @@ pub fn run_case(tr: &mut Trace, c: &Conc, prop: &str, t: i32, ashapes: &[AShape]
                     let r = read_cursor_route(c, &shp, if with_shx { Some(&shx) } else { None }, t, generic, random, n);
                     tr.emit(json!({"ev": "readback", "generic": generic, "random": random, "withShx": with_shx,
                                    "via": "cursor", "res": r}));
+                }
+            }
+            if generic && t != 0 {
+                for refused in [true, false] {
+                    let r = read_used_route(c, &shp, &shx, t, refused);
+                    tr.emit(json!({"ev": "readback", "generic": true, "random": false, "withShx": true,
+                                   "via": if refused { "after-refused-nth" } else { "after-walk-past-end" }, "res": r}));
                 }
             }
             // the Iterator adaptors that an implementation may override: nth(k) then the rest, count(), last()
